@@ -655,27 +655,27 @@ mod v_socket_icmp {
         } else {
             Icmpv4Repr::TimeExceeded { reason: Icmpv4TimeExceeded::TtlExpired, header: qhdr, data: &quoted[..] }
         };
-        // error messages against a TCP-bound socket need a quoted TCP header: not built here
-        kani::assume(echo || bk != 3);
         let ip = Ipv4Repr { src_addr: src, dst_addr: dst, next_header: IpProtocol::Icmp, payload_len: repr.buffer_len(), hop_limit: 64 };
         let acc = s.accepts_v4(cx, &ip, &repr);
         let matches = match bk {
+            0 => false,
             // bound to an identifier: echo request / reply carrying exactly that identifier
             1 => echo && mid == bid,
             // bound to a UDP port: an error message quoting a UDP header sent from that port, and, if bound
             // to an address, addressed to that address
             2 => !echo && bport != 0 && qsp == bport && (baddr.is_none() || baddr == Some(IpAddress::Ipv4(dst))),
-            _ => false,
+            // bound to a TCP port: likewise (the source port is the first field of a TCP header too; the quote is
+            // the first 8 octets of the offending segment, so nothing else of it can be examined)
+            _ => !echo && bport != 0 && qsp == bport && (baddr.is_none() || baddr == Some(IpAddress::Ipv4(dst))),
         };
+        crate::vdump!("bound={:?} ip={:?} repr={:?} accepted={} reference={}", s.endpoint, ip, repr, acc, matches);
         assert!(!acc || matches, "prop:c09_icmp_accepts_only_if_bound_endpoint_matches");
-        // the quoted UDP datagram is complete (its length field covers exactly the 8 quoted bytes) and has a
-        // destination port: matching is also sufficient (truncated quotes: see icmp_accepts_truncated_quote)
-        if bk != 2 || (qlen == 8 && qdp != 0) {
-            assert!(acc == matches, "prop:c09_icmp_accepts_iff_bound_endpoint_matches");
-        }
+        // matching is also sufficient, whatever the quoted length field says (quotes are normally truncated:
+        // see icmp_accepts_truncated_quote)
+        assert!(acc == matches, "prop:c09_icmp_accepts_iff_bound_endpoint_matches");
         kani::cover!(acc && bk == 1, "echo with the bound identifier accepted");
-        kani::cover!(acc && bk == 2 && baddr.is_some(), "error for the bound UDP port and address accepted");
-        kani::cover!(!acc && bk == 2 && !echo && qsp == bport && qlen == 8 && qdp != 0, "right port, wrong address");
+        kani::cover!(acc && bk == 2 && baddr.is_some() && qlen > 8, "error for the bound UDP port and address accepted, truncated quote");
+        kani::cover!(!acc && bk == 2 && !echo && qsp == bport && qdp != 0, "right port, wrong address");
         kani::cover!(!acc && bk == 1 && echo, "echo with another identifier refused");
 
         // binding twice is an error and changes nothing
@@ -691,7 +691,7 @@ mod v_socket_icmp {
     // quoted UDP length field normally exceeds the 8 quoted bytes.  A socket bound to the UDP port the
     // datagram was sent from must accept such an error ("each valid datagram arriving for a bound socket is
     // delivered").
-    // @harness props=C09 kind=finding cfg=KI4 tier=q to=600 mem=8 unwind=6 opts=nomem covers=1 funcs=icmp::Socket::accepts_v4;UdpRepr::parse;UdpPacket::check_len bounds=socket_bound_to_Udp(any_port);_DstUnreachable_quoting_the_first_8_bytes_of_a_UDP_datagram_of_any_length_8..=65535
+    // @harness props=C09 cfg=KI4 tier=q to=600 mem=8 unwind=6 opts=nomem covers=1 funcs=icmp::Socket::accepts_v4 bounds=socket_bound_to_Udp(any_port);_DstUnreachable_quoting_the_first_8_bytes_of_a_UDP_datagram_of_any_length_8..=65535
     #[kani::proof]
     pub(crate) fn icmp_accepts_truncated_quote() {
         env!(dev, iface, cx);
@@ -701,7 +701,7 @@ mod v_socket_icmp {
         assert!(s.bind(Endpoint::Udp(IpListenEndpoint { addr: None, port: bport })).is_ok(), "prop:c09_icmp_bind_fresh_socket");
         let qdp: u16 = kani::any();
         let qlen: u16 = kani::any();
-        kani::assume(qdp != 0 && qlen >= 8);
+        kani::assume(qlen >= 8);
         let quoted = udp_header(bport, qdp, qlen);
         let qhdr = Ipv4Repr { src_addr: LOCAL, dst_addr: any_v4(), next_header: IpProtocol::Udp, payload_len: 8, hop_limit: 64 };
         let repr = Icmpv4Repr::DstUnreachable { reason: Icmpv4DstUnreachable::PortUnreachable, header: qhdr, data: &quoted[..] };
